@@ -589,6 +589,14 @@ fn run_case(case: &Case) -> Verdict {
                 }
             },
             Op::Mv(src, dst) => match t.get(src).cloned() {
+                Some(Node::File(_)) if !blocked(&t, src) && !created_on_the_way.is_empty() && src != dst && t.contains_key(dst) => {
+                    // mv decides what kind of thing its target is BEFORE it creates the target's missing parents; a
+                    // target that exists but is spelled through a directory that does not exist yet is then taken
+                    // for a new name. What should happen is not settled by the statement: any answer, no panic
+                    world.op("mv", &[src.clone(), dst.clone()], &Want::Any, &[src.clone(), dst.clone()]);
+                    sim::with_core(|c| c.probe("mv-onto-existing-target-spelled-through-a-missing-directory"));
+                    resync_all = true;
+                }
                 Some(Node::File(content)) if !blocked(&t, src) => {
                     let dst_node = t.get(dst).cloned();
                     if src == dst {
